@@ -127,6 +127,10 @@ def run(chk: core.Check):
                         if D == 3 or M > 8:
                             sel = rng.choice(len(allres), size=min(len(allres), 60 if quick else 400), replace=False)
                             allres = [allres[i] for i in sel] + [(0,) * D, (M // 2,) * D, (0,) + (M - 1,) * (D - 1)]
+                            # exactly one axis on a cell centre, for every axis (the r == 1 / r == 0 branch boundaries per factor)
+                            for a_ in range(D):
+                                for other in (3 % M, M - 1):
+                                    allres.append(tuple(0 if b_ == a_ else other for b_ in range(D)))
                         for bump in (0, 1, -1):
                             # batches of markers (each batch size is a separately compiled numba kernel:
                             # quick uses 4, thorough 1, 3 and 5)
